@@ -863,6 +863,84 @@ def analyze(ctx, want):
     rows = {}
     for p in ret_paths(paths):
         bs = p.calls(r"<impl \[usize\]>::binary_search(_by::|$)")
+        pp = p.calls(r"<impl \[usize\]>::partition_point(::<.*>)?$")
+        if not bs and len(pp) == 1:
+            # counting form: K = number of recorded line starts that are <= offset (`partition_point(|&x| x <= offset)` on the
+            # ascending list); the line is K and starts at line_offsets[K - 1] — the same table as the search: Ok(i) is K = i + 1,
+            # Err(i) is K = i
+            b = pp[0]
+            ob("C09.f", "position:searches-line_offsets", "self.line_offsets" in S.vstr(b[3][0]), "partitions %s" % S.vstr(b[3][0]), po.loc())
+            f = ex.deref_val(p, b[3][1]) if b[3][1][0] == "ref" else b[3][1]
+            okp, detp = False, "predicate %s not analysable" % S.vstr(f)[:60]
+            if f[0] == "closure" and f[1] in F.fns:
+                cfn = F.fns[f[1]]
+                ex3 = S.Engine(cfn, F, Model(), cut_edges=cfn.back_edges())
+                ip = p.fork()        # (the captured `offset` lives in the frame of position())
+                ip.end = None
+                ip.locals[(ex3.fid, 1)] = ("ref", ("loc", f, ()), False)
+                ip.locals[(ex3.fid, 2)] = ("ref", ("loc", ("sym", "elem"), ()), False)
+                from .kernel import binop_set, FLIP
+                true_for = set()
+                okp = True
+                for q in ex3.run(0, ip.fork()):
+                    if q.end[0] != "return":
+                        okp = False
+                        continue
+                    oset = {"L", "E", "G"}      # orderings of (elem ? offset) this path covers
+                    def norm(x, q=q):
+                        n_ = 0
+                        while n_ < 6:
+                            n_ += 1
+                            if x[0] == "ref":
+                                x = ex3.deref_val(q, x)
+                            elif x[0] == "deref":
+                                x = x[1]
+                            else:
+                                break
+                        return x
+                    terms = [((c[0], c[1], norm(c[2]), norm(c[3])) if c[0] == "binop" else c, o) for c, o in q.conds]
+                    val = q.end[1]
+                    if val[0] == "binop":
+                        val = (val[0], val[1], norm(val[2]), norm(val[3]))
+                    for c, o in terms:
+                        if c[0] == "binop" and c[1] in ("Lt", "Le", "Gt", "Ge", "Eq", "Ne") and isinstance(o, bool):
+                            a_, b_ = c[2], c[3]
+                            if a_ == ("sym", "elem") and b_ == ("sym", "offset"):
+                                oset &= binop_set(c[1], o)
+                            elif b_ == ("sym", "elem") and a_ == ("sym", "offset"):
+                                oset &= {FLIP[x] for x in binop_set(c[1], o)}
+                            else:
+                                okp = False
+                    if val[0] == "binop" and val[1] in ("Lt", "Le", "Gt", "Ge", "Eq", "Ne"):
+                        if val[2] == ("sym", "elem") and val[3] == ("sym", "offset"):
+                            true_for |= oset & binop_set(val[1], True)
+                        elif val[3] == ("sym", "elem") and val[2] == ("sym", "offset"):
+                            true_for |= oset & {FLIP[x] for x in binop_set(val[1], True)}
+                        else:
+                            okp = False
+                    elif val == ("bool", True):
+                        true_for |= oset
+                    elif val != ("bool", False):
+                        okp = False
+                if not okp or true_for != {"L", "E"}:
+                    detdbg = "(closure paths not of the form elem <op> offset)"
+                else:
+                    detdbg = ""
+                okp = okp and true_for == {"L", "E"}
+                detp = "predicate is true for elements %s the offset" % "/".join({"L": "below", "E": "equal to", "G": "above"}[x] for x in sorted(true_for))
+            ob("C09.f", "position:counts-line-starts-up-to-the-offset", okp, detp + " (must be: below or equal) %s" % (detdbg,), po.loc())
+            pn = p.calls(r"Position::new$")
+            if len(pn) != 1:
+                ob("C09.f", "position:builds-one-position", False, "%d Position::new" % len(pn), po.loc())
+                continue
+            line, col = pn[0][3][0], pn[0][3][1]
+            K = b[4]
+            ll, lc = S.linear(line)
+            for v in ("Ok", "Err"):
+                rows[v] = "line=%s col=%s" % (S.vstr(line), S.vstr(col))
+                ob("C09.f", "position:%s:line-number" % v, ll == {K: 1} and lc == 0, "line = %s (K = number of line starts at or before the offset)" % S.vstr(line), po.loc())
+                ob("C09.f", "position:%s:column" % v, col_ok(col, K, -1), "column = %s (offset minus the start of line K, line_offsets[K - 1], plus 1)" % S.vstr(col), po.loc())
+            continue
         if len(bs) != 1:
             ob("C09.f", "position:one-search", False, "%d searches" % len(bs), po.loc())
             continue
